@@ -158,8 +158,7 @@ def check_state(r, k, masks, task):
     if task["distinct"] and len(set(masks)) < len(masks):
         return
     _meas()
-    trains = [lattice.times(m) for m in masks]
-    edges = lattice.edges(k)
+    trains, edges = pairs.trains_edges(k, masks)
     ns = pairs.nspikes(masks)
     n = len(masks)
     sels = selections(n) if task["sel"] == "all" else (SEL3_SOME if n == 3 else SEL4_SOME)
